@@ -457,8 +457,8 @@ class Output(object):
     # Saves to file, set figure size
     def _save_plot(self, data):
         if self.figsize is not None:
-            mpl.gcf().set_size_inches(int(self.figsize[0]),
-                                      int(self.figsize[1]), forward=True)
+            mpl.gcf().set_size_inches(float(self.figsize[0]),
+                                      float(self.figsize[1]), forward=True)
         if not self.show_margin:
             verif.util.remove_margin()
 
